@@ -383,15 +383,24 @@ func Check(env *Env, prop Property, tier string, verifSeed uint64, workers int) 
 				}
 				shrinkLog = append(shrinkLog, notes...)
 			}
-			// confirm by two fresh replays of the materialised scenario (no PRNG involved)
-			for k := 0; k < 2; k++ {
-				out, err := runOne(env, prop, bestData, tier, &st, 1+3*k)
+			// confirm by fresh replays of the materialised scenario (no PRNG involved)
+			reproduced := 0
+			for k := 0; k < 5 && (k < 2 || reproduced == 0); k++ {
+				out, err := runOne(env, prop, bestData, tier, &st, 1+3*(k%2))
 				if err != nil {
 					return nil, err
 				}
-				if hasClass(out, class) == nil {
-					return nil, Harness("violation %q of scenario %d did not reproduce on replay %d: the simulator is not deterministic", class, f.index, k+1)
+				if hasClass(out, class) != nil {
+					reproduced++
 				}
+			}
+			if reproduced == 0 {
+				// The simulator owns every source of nondeterminism of the unchanged tree (the
+				// determinism self-test shows identical traces), so an observation that does not
+				// replay means the tree under test has acquired nondeterminism of its own (for
+				// example goroutines). The wrong output WAS produced by that tree: it is reported,
+				// flagged as unstable, with the scenario that showed it.
+				shrinkLog = append(shrinkLog, "UNSTABLE: observed during exploration but not reproduced in 5 replays of the same scenario and schedule: the tree under test is not deterministic under a fixed schedule (unowned concurrency?)")
 			}
 			v := hasClass(bestOut, class)
 			known := false
